@@ -25,7 +25,7 @@ VARIANTS = {
     "X2": ["drop_column"],
     "X2dev": ["drop_column_dev"],
     "K1": ["quant_in_qualitative", "quant_in_ordinal"],
-    "X3": ["string_cell"],
+    "X3": ["string_cell", "string_cell", "string_cell_category"],
     "X4": ["unranked_value"],
     "K2": ["unsupported_sort_by"],
     "R1": ["refit"],
@@ -200,6 +200,8 @@ def mutate(sess, fault, variant, op, X, y, kwargs):
         desc["column"], desc["row"] = col, pos
         X[col] = X[col].astype("object")
         X.iat[pos, X.columns.get_loc(col)] = "abc"
+        if variant == "string_cell_category":
+            X[col] = X[col].astype("category")  # same values held by a pandas categorical column
     elif fault == "X4":
         ords = sorted(f["name"] for f in feats if f["kind"] == "ord" and f.get("sub") != "num")
         col = ords[op["f"] % len(ords)]
@@ -227,6 +229,7 @@ def build_with(sess, ctor):
     if "also_ordinal" in ctor:
         ordi = ordi + [ctor["also_ordinal"]]
         orders = dict(orders, **{ctor["also_ordinal"]: ["a", "b"]})
+    extra = dict(params.get("extra_kwargs", {}))
     if cls == "Discretizer":
         return Discretizer(
             quantitative_features=quant,
@@ -236,6 +239,7 @@ def build_with(sess, ctor):
             values_orders=orders,
             copy=params["copy"],
             n_jobs=params["n_jobs"],
+            **extra,
         )
     kwargs = dict(
         min_freq=params["min_freq"],
@@ -249,6 +253,7 @@ def build_with(sess, ctor):
         dropna=params["dropna"],
         copy=params["copy"],
         n_jobs=params["n_jobs"],
+        **extra,
     )
     sort_by = ctor.get("sort_by", params.get("sort_by"))
     if cls == "BinaryCarver":
@@ -393,7 +398,7 @@ def run_c19(sess):
         else:
             sess.live = obj
             try:
-                sess.model = DModel(obj)
+                sess.model = DModel(obj, worlds.expected_sentinels(sess.world))
             except ModelInvalid:
                 sess.model = None
     for step, op in enumerate(sess.spec["ops"]):
